@@ -44,7 +44,7 @@ Qed.
 (* one step of a pipeline runs every closure at most once (per occurrence of its id) *)
 Lemma next_count : forall id p q, (count id (fst (next p q)) <= occ_pipe id p)%nat.
 Proof.
-  intros id p. induction p as [n|l|s p IH|p1 IH1 p2 IH2|ci g p1 IH1 p2 IH2|ci less p1 IH1 p2 IH2]; intros q; cbn [next occ_pipe].
+  intros id p. induction p as [n|l|s p IH|p1 IH1 p2 IH2|ci g p1 IH1 p2 IH2|ci less p1 IH1 p2 IH2|cx p IH]; intros q; cbn [next occ_pipe].
   - destruct q; try (cbn; lia). destruct (i <? n); cbn; lia.
   - destruct q; try (cbn; lia). destruct rest; cbn; lia.
   - destruct q as [| |ss q'| | |]; try (cbn; lia).
@@ -73,6 +73,7 @@ Proof.
       try (destruct r1; cbn [fst]; lia); try (destruct r2; cbn [fst]; lia);
       try (cbn [fst]; cbn; lia);
       try (destruct (less x y) as [[|]|]; cbn [fst]; rewrite count_one; lia).
+  - apply IH.
 Qed.
 
 Lemma term_item_count : forall id t s v, (count id (fst (term_item t s v)) <= occ_term id t)%nat.
@@ -196,6 +197,7 @@ Fixpoint agree_pipe (L : log) (M : Z) (p p' : pipe) : Prop :=
   | PApp a b, PApp a' b' => agree_pipe L M a a' /\ agree_pipe L M b b'
   | PCross i g a b, PCross i' g' a' b' => i = i' /\ agree2 L i g g' /\ agree_pipe L M a a' /\ agree_pipe L M b b'
   | PMerge i g a b, PMerge i' g' a' b' => i = i' /\ agree2 L i g g' /\ agree_pipe L M a a' /\ agree_pipe L M b b'
+  | PThrough c a, PThrough c' a' => c = c' /\ agree_pipe L M a a'
   | _, _ => False
   end.
 
@@ -239,13 +241,13 @@ Definition step_bound (j : Z) (r : step) : Prop :=
 
 Lemma init_qbound : forall p, qbound 0 (init p).
 Proof.
-  induction p as [n|l|s p IH|p1 IH1 p2 IH2|ci g p1 IH1 p2 IH2|ci g p1 IH1 p2 IH2]; cbn [init qbound]; try lia; try exact I; auto.
+  induction p as [n|l|s p IH|p1 IH1 p2 IH2|ci g p1 IH1 p2 IH2|ci g p1 IH1 p2 IH2|cx p IH]; cbn [init qbound]; try lia; try exact I; auto.
 Qed.
 
 Lemma init_agree : forall L M p p', agree_pipe L M p p' -> init p' = init p.
 Proof.
-  intros L M p. induction p as [n|l|s p IH|p1 IH1 p2 IH2|ci g p1 IH1 p2 IH2|ci g p1 IH1 p2 IH2]; intros p' H;
-    destruct p' as [n'|l'|s' p'|p1' p2'|ci' g' p1' p2'|ci' g' p1' p2'];
+  intros L M p. induction p as [n|l|s p IH|p1 IH1 p2 IH2|ci g p1 IH1 p2 IH2|ci g p1 IH1 p2 IH2|cx p IH]; intros p' H;
+    destruct p' as [n'|l'|s' p'|p1' p2'|ci' g' p1' p2'|ci' g' p1' p2'|cx' p'];
     cbn [agree_pipe] in H; try contradiction; cbn [init].
   - reflexivity.
   - congruence.
@@ -253,6 +255,7 @@ Proof.
   - destruct H as [H1 H2]. rewrite (IH1 _ H1), (IH2 _ H2). reflexivity.
   - destruct H as [_ [_ [H1 H2]]]. rewrite (IH1 _ H1), (IH2 _ H2). reflexivity.
   - destruct H as [_ [_ [H1 H2]]]. rewrite (IH1 _ H1), (IH2 _ H2). reflexivity.
+  - destruct H as [_ H]. apply IH. exact H.
 Qed.
 
 Lemma stage_item_log : forall s ss l v q, exists l1, fst (stage_item s ss l v q) = l ++ l1.
@@ -334,8 +337,8 @@ Lemma next_agree : forall L M p p' q j,
   agree_pipe L M p p' -> qbound j q -> 0 <= j < M -> incl (fst (next p q)) L ->
   next p' q = next p q /\ step_bound (j + 1) (snd (next p q)).
 Proof.
-  intros L M p. induction p as [n|l|s p IH|p1 IH1 p2 IH2|ci g p1 IH1 p2 IH2|ci less p1 IH1 p2 IH2]; intros p' q j Ha Hq Hj Hin;
-    destruct p' as [n'|l'|s' p'|p1' p2'|ci' g' p1' p2'|ci' less' p1' p2']; cbn [agree_pipe] in Ha; try contradiction.
+  intros L M p. induction p as [n|l|s p IH|p1 IH1 p2 IH2|ci g p1 IH1 p2 IH2|ci less p1 IH1 p2 IH2|cx p IH]; intros p' q j Ha Hq Hj Hin;
+    destruct p' as [n'|l'|s' p'|p1' p2'|ci' g' p1' p2'|ci' less' p1' p2'|cx' p']; cbn [agree_pipe] in Ha; try contradiction.
   - destruct q as [i| | | | |]; cbn [next]; try (split; [reflexivity|exact I]).
     cbn [qbound] in Hq.
     assert (E : (i <? n') = (i <? n)).
@@ -451,6 +454,8 @@ Proof.
       try (split; [reflexivity|cbn [snd step_bound qbound]; auto]);
       try (rewrite <- (S3 x y Hin); split; [reflexivity|];
            destruct (less x y) as [[|]|]; cbn [snd step_bound qbound]; auto).
+  - (* through *)
+    destruct Ha as [_ Ha]. cbn [next] in *. apply (IH p' q j Ha Hq Hj Hin).
 Qed.
 
 Lemma term_item_agree : forall L t t' s v,
@@ -570,6 +575,7 @@ Fixpoint set_numbers (m : Z) (p : pipe) : pipe :=
   | PApp a b => PApp (set_numbers m a) (set_numbers m b)
   | PCross i g a b => PCross i g (set_numbers m a) (set_numbers m b)
   | PMerge i g a b => PMerge i g (set_numbers m a) (set_numbers m b)
+  | PThrough c a => PThrough c (set_numbers m a)
   end.
 
 (* every numbers source has at least m elements *)
@@ -580,6 +586,7 @@ Fixpoint numbers_ge (m : Z) (p : pipe) : Prop :=
   | PStage _ p' => numbers_ge m p'
   | PApp a b => numbers_ge m a /\ numbers_ge m b
   | PCross _ _ a b | PMerge _ _ a b => numbers_ge m a /\ numbers_ge m b
+  | PThrough _ a => numbers_ge m a
   end.
 
 Lemma agree_stage_refl : forall L s, agree_stage L s s.
@@ -590,13 +597,14 @@ Proof. intros L t. destruct t; cbn; repeat split; intros; reflexivity. Qed.
 
 Lemma agree_set_numbers : forall L M m p, numbers_ge M p -> M <= m -> agree_pipe L M p (set_numbers m p).
 Proof.
-  intros L M m p. induction p as [n|l|s p IH|a IHa b IHb|ci g a IHa b IHb|ci g a IHa b IHb]; cbn [numbers_ge set_numbers agree_pipe]; intros H Hm.
+  intros L M m p. induction p as [n|l|s p IH|a IHa b IHb|ci g a IHa b IHb|ci g a IHa b IHb|cx p IH]; cbn [numbers_ge set_numbers agree_pipe]; intros H Hm.
   - right. lia.
   - reflexivity.
   - split; [apply agree_stage_refl|apply IH; assumption].
   - destruct H. split; [apply IHa|apply IHb]; assumption.
   - destruct H. split; [reflexivity|]. split; [intros x y _; reflexivity|]. split; [apply IHa|apply IHb]; assumption.
   - destruct H. split; [reflexivity|]. split; [intros x y _; reflexivity|]. split; [apply IHa|apply IHb]; assumption.
+  - split; [reflexivity|apply IH; assumption].
 Qed.
 
 (* the length of the sources is irrelevant beyond the number of steps the consumer made *)
@@ -939,4 +947,26 @@ Proof.
                     (fun q => next_count0 idb _ q (occ_map_other idb ida fa pa Hab Hba))
                     t Htb _ _ _ _ _ _ H) as R.
       cbn [init wq wt] in R. lia.
+Qed.
+
+(* ------------------------------------------------------------------ pass-through constructs
+   A list that is the result of try/catch, let, if, switch, a closure or func returning its argument, a
+   map field, a list element or a host function argument is the SAME list: nothing is evaluated. *)
+Lemma through_is_identity : forall c p q, next (PThrough c p) q = next p q.
+Proof. reflexivity. Qed.
+
+Lemma through_init : forall c p, init (PThrough c p) = init p.
+Proof. reflexivity. Qed.
+
+Lemma loop_through : forall c fuel p t q s, loop fuel (PThrough c p) t q s = loop fuel p t q s.
+Proof.
+  intros c fuel. induction fuel as [|f IH]; intros p t q s; cbn [loop]; [reflexivity|].
+  rewrite through_is_identity. destruct (next p q) as [l r]. destruct r; try reflexivity.
+  - rewrite IH. reflexivity.
+  - destruct (term_item t s v) as [l1 tr]. destruct tr; [rewrite IH|]; reflexivity.
+Qed.
+
+Lemma run_through : forall c fuel t p, run fuel t (PThrough c p) = run fuel t p.
+Proof.
+  intros c fuel t p. destruct t; try (cbn [run build init fst snd]; apply loop_through). reflexivity.
 Qed.
